@@ -1,0 +1,134 @@
+//go:build verif
+
+// Contracts for the deductive checker in /verif (comment-only; compiled only with -tags verif).
+// C12: phase unwrapping keeps the signal modulo flux quanta and is independent of how the
+// sequence is split into calls.
+//
+// vof(u, x) is the input sample after inversion-independent masking and bit drop, exactly as the
+// code computes it ((x & signMask) >> lowBitsToDrop; bit operations with variable operands are
+// uninterpreted here -- the range fact 0 <= vof < twoPi is checked exhaustively by a stand-in).
+// Ghost per-call arrays: goff[k] = offset added to sample k of this call, gcnt[k] = value of the reset
+// counter after sample k.
+
+package dastard
+
+//@ ghost field PhaseUnwrapper.gcnt intmap
+//@ ghost field PhaseUnwrapper.goff intmap
+
+//@ pred vof(u *PhaseUnwrapper, x int) := uint16(x & u.signMask) >> u.lowBitsToDrop
+// VIn: the input sample after optional inversion, masking and bit drop; OffOf: the offset (mod 2^16) an output carries.
+//@ pred VIn(u *PhaseUnwrapper, x int) := vof(u, ite(u.invertData, 65535 - x, x))
+//@ pred OffOf(u *PhaseUnwrapper, out int, v int) := (out + 65536 - v) % 65536
+//@ pred PowT(t int) := t == 2 || t == 4 || t == 8 || t == 16 || t == 32 || t == 64 || t == 128 || t == 256 || t == 512 || t == 1024 || t == 2048 || t == 4096 || t == 8192 || t == 16384
+
+// Adding or removing one quantum (with 16-bit wrap-around) keeps a multiple of the quantum a multiple.
+//@ lemma quantum_step C12: forall a int, t int :: PowT(t) && 0 <= a && a < 65536 && a % t == 0 ==> ((a + t) % 65536) % t == 0 && ((a + 65536 - t) % 65536) % t == 0
+
+// InvU: representation invariant of an enabled unwrapper.
+//@ pred InvU(u *PhaseUnwrapper) := u.enable && u.lowBitsToDrop > 0 ==> PowT(u.twoPi) && u.upperStepLim - u.lowerStepLim == u.twoPi
+//@     && 0 - u.twoPi <= u.lowerStepLim && u.lowerStepLim <= 0 && 0 <= u.upperStepLim && u.upperStepLim <= u.twoPi
+//@     && u.lastVal < u.twoPi && 0 <= u.resetCount && u.resetCount <= u.resetAfter && u.resetAfter > 0
+//@     && u.offset % u.twoPi == 0 && u.resetOffset % u.twoPi == 0
+// MaskOK: the masked, shifted sample lies in [0, twoPi) (bit-level fact about signMask/lowBitsToDrop/twoPi).
+//@ pred MaskOK(u *PhaseUnwrapper) := forall x int :: {vof(u, x)} 0 <= x && x < 65536 ==> 0 <= vof(u, x) && vof(u, x) < u.twoPi
+
+//@ func (*PhaseUnwrapper).UnwrapInPlace
+//@   props C12
+//@   requires u != nil && data != nil && allocated(*data) && InvU(u) && (u.enable && u.lowBitsToDrop > 0 ==> MaskOK(u))
+//@   ensures inv: InvU(u) && len(*data) == old(len(*data))
+//@   ensures config: unchanged(u.twoPi, u.upperStepLim, u.lowerStepLim, u.resetAfter, u.resetOffset, u.signMask, u.lowBitsToDrop, u.enable, u.invertData, u.fractionBits)
+//@   ensures nodrop: u.lowBitsToDrop == 0 ==> (forall p int :: {at(*data, p)} (*data).off <= p && p < (*data).off + len(*data) ==> at(*data, p) == ite(u.invertData, 65535 - oldat(*data, p), oldat(*data, p)))
+//@   ensures disabled: u.lowBitsToDrop > 0 && !u.enable ==> u.resetCount == 0 && (forall p int :: {at(*data, p)} (*data).off <= p && p < (*data).off + len(*data) ==> at(*data, p) == VIn(u, oldat(*data, p)))
+//@   ensures output: u.lowBitsToDrop > 0 && u.enable ==> (forall p int :: {at(*data, p)} (*data).off <= p && p < (*data).off + len(*data) ==> at(*data, p) == (VIn(u, oldat(*data, p)) + u.goff[p - (*data).off]) % 65536)
+//@   ensures quanta: u.lowBitsToDrop > 0 && u.enable ==> (forall k int :: {u.goff[k]} 0 <= k && k < len(*data) ==> 0 <= u.goff[k] && u.goff[k] < 65536 && u.goff[k] % u.twoPi == 0)
+//@   ensures steps: u.lowBitsToDrop > 0 && u.enable ==> (forall k int :: {u.goff[k]} 0 <= k && k < len(*data) ==>
+//@        StepOK(u, u.goff[k], ite(k == 0, old(u.offset), u.goff[k - 1]), VIn(u, oldat(*data, (*data).off + k)), ite(k == 0, old(u.lastVal), VIn(u, oldat(*data, (*data).off + k - 1)))))
+//@   ensures counter: u.lowBitsToDrop > 0 && u.enable ==> (forall k int :: {u.gcnt[k]} 0 <= k && k < len(*data) ==> CountOK(u, k, old(u.resetCount)))
+//@   ensures carry: u.lowBitsToDrop > 0 && u.enable && len(*data) > 0 ==> u.lastVal == VIn(u, oldat(*data, (*data).off + len(*data) - 1)) && u.offset == u.goff[len(*data) - 1] && u.resetCount == u.gcnt[len(*data) - 1]
+//@   ensures idle: len(*data) == 0 ==> unchanged(u.lastVal, u.offset) && (u.enable ==> unchanged(u.resetCount))
+//@   modifies u.lastVal, u.offset, u.resetCount, u.gcnt, u.goff, (*data)[*]
+//@   apply forall a int :: {(a + u.twoPi) % 65536} quantum_step(a, u.twoPi)
+//@   ghost loop 3: u.gcnt[rangeindex] := u.resetCount
+//@   ghost loop 3: u.goff[rangeindex] := u.offset
+//@   loop 1
+//@     invariant -1 <= rangeindex && rangeindex <= len(*data) - 1 && unchanged(*data)
+//@     invariant done: forall p int :: {at(*data, p)} (*data).off <= p && p <= (*data).off + rangeindex ==> at(*data, p) == 65535 - oldat(*data, p)
+//@     invariant rest: forall p int :: {at(*data, p)} (*data).off + rangeindex < p && p < (*data).off + len(*data) ==> at(*data, p) == oldat(*data, p)
+//@   loop 2
+//@     invariant -1 <= rangeindex && rangeindex <= len(*data) - 1 && unchanged(*data) && u.resetCount == 0
+//@     invariant done: forall p int :: {at(*data, p)} (*data).off <= p && p <= (*data).off + rangeindex ==> at(*data, p) == VIn(u, oldat(*data, p))
+//@     invariant rest: forall p int :: {at(*data, p)} (*data).off + rangeindex < p && p < (*data).off + len(*data) ==> at(*data, p) == ite(u.invertData, 65535 - oldat(*data, p), oldat(*data, p))
+//@   loop 3
+//@     invariant -1 <= rangeindex && rangeindex <= len(*data) - 1 && unchanged(*data) && InvU(u) && MaskOK(u) && u.enable && u.lowBitsToDrop > 0
+//@     invariant first: rangeindex == -1 ==> unchanged(u.resetCount, u.offset, u.lastVal)
+//@     invariant carry: rangeindex >= 0 ==> u.lastVal == VIn(u, oldat(*data, (*data).off + rangeindex)) && u.offset == u.goff[rangeindex] && u.resetCount == u.gcnt[rangeindex]
+//@     invariant rest: forall p int :: {at(*data, p)} (*data).off + rangeindex < p && p < (*data).off + len(*data) ==> at(*data, p) == ite(u.invertData, 65535 - oldat(*data, p), oldat(*data, p))
+//@     invariant output: forall p int :: {at(*data, p)} (*data).off <= p && p <= (*data).off + rangeindex ==> at(*data, p) == (VIn(u, oldat(*data, p)) + u.goff[p - (*data).off]) % 65536
+//@     invariant quanta: forall k int :: {u.goff[k]} 0 <= k && k <= rangeindex ==> 0 <= u.goff[k] && u.goff[k] < 65536 && u.goff[k] % u.twoPi == 0
+//@     invariant steps: forall k int :: {u.goff[k]} 0 <= k && k <= rangeindex ==>
+//@        StepOK(u, u.goff[k], ite(k == 0, old(u.offset), u.goff[k - 1]), VIn(u, oldat(*data, (*data).off + k)), ite(k == 0, old(u.lastVal), VIn(u, oldat(*data, (*data).off + k - 1))))
+//@     invariant counter: forall k int :: {u.gcnt[k]} 0 <= k && k <= rangeindex ==> CountOK(u, k, old(u.resetCount))
+
+// CountOK: the reset counter after sample k is 0 when the sample's offset is the home offset, otherwise
+// one more than after the previous sample, and it never exceeds resetAfter -- so after at most resetAfter
+// consecutive samples away from the home offset the output is back at the home offset.
+//@ pred CountOK(u *PhaseUnwrapper, k int, cnt0 int) := 0 <= u.gcnt[k] && u.gcnt[k] <= u.resetAfter && (u.goff[k] == u.resetOffset ==> u.gcnt[k] == 0)
+//@     && (u.goff[k] != u.resetOffset ==> u.gcnt[k] == ite(k == 0, cnt0, u.gcnt[k - 1]) + 1)
+
+// StepOK: either the offset returned to the home offset (automatic reset / already home), or it moved
+// by -1, 0 or +1 quantum from the previous sample's offset such that the resulting output step
+// (input step plus that move) lies within half a quantum of the bias: lowerStepLim <= step <= upperStepLim.
+//@ pred StepOK(u *PhaseUnwrapper, off int, offprev int, v int, vprev int) := off == u.resetOffset
+//@     || (off == offprev && u.lowerStepLim <= v - vprev && v - vprev <= u.upperStepLim)
+//@     || (off == (offprev + u.twoPi) % 65536 && u.lowerStepLim <= v - vprev + u.twoPi && v - vprev + u.twoPi <= u.upperStepLim)
+//@     || (off == (offprev + 65536 - u.twoPi) % 65536 && u.lowerStepLim <= v - vprev - u.twoPi && v - vprev - u.twoPi <= u.upperStepLim)
+
+// ---- construction ----
+// P2(n) = 2^n for the bit counts that occur.
+//@ pred P2(n int) := ite(n == 1, 2, ite(n == 2, 4, ite(n == 3, 8, ite(n == 4, 16, ite(n == 5, 32, ite(n == 6, 64, ite(n == 7, 128, ite(n == 8, 256, ite(n == 9, 512, ite(n == 10, 1024, ite(n == 11, 2048, ite(n == 12, 4096, ite(n == 13, 8192, ite(n == 14, 16384, ite(n == 15, 32768, ite(n == 16, 65536, 0))))))))))))))))
+
+//@ bounded C12 TestVerifBoundedUnwrapperConstruction : NewPhaseUnwrapper's trusted postcondition (InvU, MaskOK) checked on the real constructor for every parameter set admitted by its precondition (fraction bits 2..16, all bit drops, enable on/off, bias levels up to half a quantum, both pulse signs, inversion on/off), MaskOK exhaustively over all 65536 raw values (bounded/exhaustive stand-in, not a proof: variable shifts are uninterpreted in the verifier)
+
+// The bias must not exceed half a quantum at full scale (2^fractionBits = one quantum before the
+// bit drop), otherwise the step window no longer contains the zero step.
+//@ func NewPhaseUnwrapper
+//@   trusted
+//@   requires bits: 2 <= fractionBits && fractionBits <= 16 && lowBitsToDrop + 2 <= fractionBits && (enable ==> lowBitsToDrop > 0 && resetAfter > 0)
+//@   requires bias: 0 - P2(fractionBits - 1) <= biasLevel && biasLevel <= P2(fractionBits - 1)
+//@   ensures result != nil && fresh(result) && InvU(result) && (result.enable && result.lowBitsToDrop > 0 ==> MaskOK(result)) && result.enable == enable && result.lowBitsToDrop == lowBitsToDrop
+
+//@ func (AbacoUnwrapOptions).calcBiasLevel
+//@   props C12
+//@   ensures (!u.Bias ==> result == 0) && (u.Bias && u.PulseSign >= 0 ==> result == 24904) && (u.Bias && u.PulseSign < 0 ==> result == 0 - 24904)
+// math.Round on non-negative finite values: floor(x + 1/2)
+//@ extern func math.Round
+//@   pure
+//@   ensures x >= 0.0 ==> result == real(floor(x + 0.5))
+
+// Call sites: both must satisfy the constructor's precondition (in particular: the bias level fits
+// the number of fraction bits of that hardware).
+//@ func NewAbacoGroup
+//@   props C12
+//@   requires index.Nchan >= 0 && opt.ResetAfter > 0 && (opt.Unwrap ==> opt.RescaleRaw)
+//@   ensures result != nil && fresh(result) && result.nchan == index.Nchan && len(result.unwrap) == index.Nchan && result.index == index && len(result.queue) == 0 && result.nleft == 0
+//@   ensures unwrappers: forall p int :: {at(result.unwrap, p)} result.unwrap.off <= p && p < result.unwrap.off + len(result.unwrap) ==> at(result.unwrap, p) != nil && InvU(at(result.unwrap, p))
+//@   loop 1
+//@     invariant -1 <= rangeindex && rangeindex <= len(g.unwrap) - 1 && g != nil && fresh(g) && fresh(g.unwrap) && len(g.unwrap) == index.Nchan && g.nchan == index.Nchan && g.index == index && len(g.queue) == 0 && g.nleft == 0 && (bitsToDrop == 0 || bitsToDrop == 4) && (opt.RescaleRaw ==> bitsToDrop == 4)
+//@     invariant done: forall p int :: {at(g.unwrap, p)} g.unwrap.off <= p && p <= g.unwrap.off + rangeindex ==> at(g.unwrap, p) != nil && InvU(at(g.unwrap, p))
+//@     modifies g.unwrap[*]
+
+//@ func NewAbacoGroup$1
+//@   trusted
+//@   modifies nothing
+
+//@ func (*RoachDevice).samplePacket
+//@   props C12
+//@   opt safety_props C11
+//@   requires dev.conn != nil
+//@   modifies dev.nextS, dev.nchan, dev.unwrap
+//@   loop 1
+//@     invariant -1 <= rangeindex && rangeindex <= len(dev.unwrap) - 1 && fresh(dev.unwrap) && (biaslevel == 0 || biaslevel == 6226 || biaslevel == 0 - 6226)
+//@     modifies dev.unwrap[*]
+//@ func parsePacket
+//@   trusted
+//@   modifies nothing
